@@ -47,6 +47,10 @@ impl Form {
         matches!(self, Form::AsyncFn | Form::ManualFuture | Form::GuardAsync | Form::ResultAsync | Form::HandoffFuture)
     }
     /// the frame returned by `new_span!` itself travels to another thread
+    /// hand-off forms whose body runs synchronously on one far thread (which can then go on with other work)
+    pub fn is_sync_handoff(self) -> bool {
+        matches!(self, Form::HandoffCall | Form::HandoffInFn | Form::HandoffEnterBack)
+    }
     pub fn is_handoff(self) -> bool {
         matches!(self, Form::HandoffCall | Form::HandoffInFn | Form::HandoffEnterBack | Form::HandoffFuture)
     }
@@ -76,6 +80,10 @@ pub struct Node {
     /// false: the filter rejects this span (by module, or through `when` for `WhenSync`)
     pub enabled: bool,
     pub items: Vec<Item>,
+    /// only for the synchronous hand-off forms: more work on the SAME far thread after the span's frame
+    /// has been left there (an unrelated program: nothing of the span may still be ambient)
+    #[serde(default)]
+    pub after: Vec<Item>,
 }
 
 #[derive(Serialize, Deserialize, Debug, Clone)]
@@ -89,7 +97,15 @@ pub enum Item {
     Yield,
     /// run `items` on a fresh thread; `carry` = inside `Frame::current(rt.ctxt())` captured here;
     /// `fut` = through `Frame::in_future` + a block_on on that thread instead of `Frame::call`
-    Hop { carry: bool, fut: bool, items: Vec<Item> },
+    /// `after`: more work on the SAME fresh thread once the carried frame has been left (the thread is a
+    /// worker that goes on with something unrelated; entering the carried frame was its very first act)
+    Hop {
+        carry: bool,
+        fut: bool,
+        items: Vec<Item>,
+        #[serde(default)]
+        after: Vec<Item>,
+    },
     /// poll the tasks on the hand-rolled executor in the order given by `schedule` (low 3 bits pick the
     /// live task; then round robin); `carry` wraps each task in `Frame::current(rt.ctxt()).in_future(..)`;
     /// `migrate` (only with `carry`) runs the polls whose schedule entry has bit 3 set on a fresh thread,
@@ -164,6 +180,10 @@ pub struct PNode {
     pub pre: usize,
     /// check id taken right after the span has ended
     pub post: usize,
+    /// synchronous hand-off forms: check taken on the far thread right after the span's frame was left …
+    pub far_end: Option<usize>,
+    /// … followed by this unrelated work on that thread
+    pub after: Vec<PItem>,
 }
 
 #[derive(Debug)]
@@ -172,7 +192,7 @@ pub enum PItem {
     Event { id: usize },
     Check { id: usize },
     Yield,
-    Hop { carry: bool, fut: bool, items: Vec<PItem>, pre: usize, post: usize },
+    Hop { carry: bool, fut: bool, items: Vec<PItem>, pre: usize, end: usize, after: Vec<PItem>, post: usize },
     Join { carry: bool, migrate: bool, tasks: Vec<Vec<PItem>>, schedule: Vec<u8>, post: usize },
 }
 
@@ -198,6 +218,7 @@ pub struct Stats {
     pub joins_carry: usize,
     pub joins_migrating: usize,
     pub handoffs: usize,
+    pub worker_root_span_after_carried_frame: bool,
     pub handoff_enabled_with_descendants: bool,
     pub handoff_disabled_with_descendants: bool,
     pub events: usize,
@@ -322,10 +343,24 @@ impl Numberer {
                         self.stats.handoff_disabled_with_descendants = true;
                     }
                 }
+                // what the far thread does after the span's frame was left: nothing is ambient there
+                let nothing = Scope { span: None, base: false };
+                let (far_end, after) = if n.form.is_sync_handoff() {
+                    let far_end = self.check(nothing);
+                    let first = self.spans.len();
+                    let after = self.items(&n.after, Where { scope: nothing, depth: 0, in_async: false, in_disabled: false });
+                    let carried_ids = n.enabled || w.scope.span.is_some() || w.scope.base;
+                    if carried_ids && self.spans[first..].iter().any(|s| s.enabled && s.depth == 1) {
+                        self.stats.worker_root_span_after_carried_frame = true;
+                    }
+                    (Some(far_end), after)
+                } else {
+                    (None, Vec::new())
+                };
                 let post = self.check(w.scope);
-                PItem::Span(PNode { id, form: n.form, enabled: n.enabled, mdl, items, pre, post })
+                PItem::Span(PNode { id, form: n.form, enabled: n.enabled, mdl, items, pre, post, far_end, after })
             }
-            Item::Hop { carry, fut, items } => {
+            Item::Hop { carry, fut, items, after } => {
                 if *carry {
                     self.stats.hops_carry += 1;
                 } else {
@@ -337,8 +372,15 @@ impl Numberer {
                 let inner = if *carry { w.scope } else { Scope { span: None, base: false } };
                 let pre = self.check(inner);
                 let items = self.items(items, Where { scope: inner, in_async: *fut, ..w });
+                let nothing = Scope { span: None, base: false };
+                let end = self.check(nothing);
+                let first = self.spans.len();
+                let after = self.items(after, Where { scope: nothing, depth: 0, in_async: false, in_disabled: false });
+                if *carry && (w.scope.span.is_some() || w.scope.base) && self.spans[first..].iter().any(|s| s.enabled && s.depth == 1) {
+                    self.stats.worker_root_span_after_carried_frame = true;
+                }
                 let post = self.check(w.scope);
-                PItem::Hop { carry: *carry, fut: *fut, items, pre, post }
+                PItem::Hop { carry: *carry, fut: *fut, items, pre, end, after, post }
             }
             Item::Join { carry, migrate, tasks, schedule } => {
                 self.stats.joins += 1;
